@@ -55,6 +55,7 @@ package memtable
 
 // Get maps the newest entry to (value, found): a deletion marker reads as (nil, true), a value never reads as nil.
 //@ func (*MemTable).Get
+//@   nonblocking[C15]
 //@   requires m.skipList != nil && lockstate(m.mu) == 0
 //@   modifies nothing
 //@   ensures[C01,C18] result1 == MTHas(m, bstr(key))
@@ -65,6 +66,7 @@ package memtable
 // Newest layer first: the active table, then the immutable tables from the newest (last) to the oldest (first);
 // the first layer that holds the key decides, also when it holds a deletion marker.
 //@ func (*MemTablePool).Get
+//@   nonblocking[C15]
 //@   requires p.active != nil && lockstate(p.mu) == 0 && lockstate(p.active.mu) == 0 && p.active.skipList != nil && (forall i int :: 0 <= i && i < len(p.immutables) ==> p.immutables[i] != nil && p.immutables[i].skipList != nil && lockstate(p.immutables[i].mu) == 0)
 //@   modifies nothing
 //@   ensures[C01] result1 ==> MTHas(p.active, bstr(key)) || (exists i int :: 0 <= i && i < len(p.immutables) && MTHas(p.immutables[i], bstr(key)))
@@ -100,6 +102,7 @@ package memtable
 
 // A mutable table takes the insert, an immutable table never changes.
 //@ func (*MemTable).Put
+//@   nonblocking[C15]
 //@   requires m.skipList != nil && lockstate(m.mu) == 0
 //@   modifies m.skipList.has, m.skipList.del, m.skipList.val, m.skipList.seq, m.skipList.size, m.skipList.maxHeight, m.nextSeqNum
 //@   ensures[C01,C18] old(m.immutable) ==> m.skipList.has == old(m.skipList.has) && m.skipList.del == old(m.skipList.del) && m.skipList.val == old(m.skipList.val) && m.skipList.seq == old(m.skipList.seq)
